@@ -51,6 +51,59 @@ def machinery_error(prop, tier, msg, out=""):
     sys.exit(2)
 
 
+RACE_PROPS = {"C08": 40, "C11": 60, "C13": 200, "C14": 40, "C15": 100, "C16": 40}
+
+
+def race_pass(prop, n, modfile, ovdir, outdir):
+    """Separate free-running pass under the race detector: the same harness bodies on real goroutines.
+    It never changes the exit code: a report is an ASSUMPTION-BROKEN note in the evidence."""
+    import glob
+    sys.path.insert(0, os.path.join(VERIF, "tools"))
+    import race_filter
+    mc = os.path.join(VERIF, "mc")
+    binr = os.path.join(WORK, "bin", "vharness-race-%d" % os.getpid())
+    t0 = time.time()
+    p = run(["go", "build", "-race", "-modfile", modfile, "-overlay", os.path.join(ovdir, "overlay.json"), "-o", binr, "./cmd/vharness"],
+            cwd=mc, capture_output=True, text=True)
+    if p.returncode != 0:
+        return {"ran": False, "why": "race build failed: " + (p.stdout + p.stderr)[-300:]}
+    logp = os.path.join(WORK, "race-%s-%d" % (prop, os.getpid()))
+    env = dict(ENV, GORACE="halt_on_error=0 log_path=%s" % logp)
+    try:
+        q = subprocess.run([binr, "race", prop, str(n)], env=env, capture_output=True, text=True, timeout=1500)
+        out = q.stdout + q.stderr
+    except subprocess.TimeoutExpired:
+        out = "timeout"
+    files = glob.glob(logp + ".*")
+    reps = race_filter.parse(files)
+    impl = [t for t in reps if any(x and ("github.com/godaddy/asherah" in x[0] or "/repo/" in x[1]) for x in t)]
+    res = {"ran": True, "summary": [l for l in out.splitlines() if l.startswith("RACE-PASS")][:1], "reports": len(reps),
+           "in_repository_code": len(impl), "between_doubles_or_harness": len(reps) - len(impl),
+           "samples": [[("%s %s:%s" % x) if x else "?" for x in t] for t in impl[:3]], "wall_s": round(time.time() - t0, 1),
+           "crashed": "RACE-PASS" not in out}
+    for f in files + [binr]:
+        try:
+            os.remove(f)
+        except OSError:
+            pass
+    for t in res["samples"]:
+        print("ASSUMPTION-BROKEN: data race in repository code seen by the free-running -race pass:", " <-> ".join(t))
+    ev = os.path.join(outdir, "evidence", prop + ".json")
+    try:
+        e = json.load(open(ev))
+        e["coverage"]["race_pass"] = res
+        if res["in_repository_code"]:
+            e["coverage"]["exhaustive"] = False
+            e.setdefault("assumptions", []).append("ASSUMPTION-BROKEN: the -race pass saw %d data races in repository code (see coverage.race_pass)" % res["in_repository_code"])
+        else:
+            e.setdefault("assumptions", []).append("free-running -race pass over the same harness bodies (%s): no data race in repository code" % (res["summary"][0] if res["summary"] else "no summary"))
+        json.dump(e, open(ev, "w"), indent=1)
+    except Exception as ex:  # evidence missing: nothing to annotate
+        print("race pass: could not annotate evidence:", ex)
+    print("race pass: %s" % json.dumps({k: res[k] for k in ("reports", "in_repository_code", "between_doubles_or_harness", "wall_s", "crashed")}))
+    return res
+
+
 def build(prop, tier, repo):
     os.makedirs(WORK, exist_ok=True)
     os.makedirs(ENV["GOCACHE"], exist_ok=True)
@@ -92,7 +145,7 @@ def build(prop, tier, repo):
         subprocess.run(["rm", "-rf", ovdir])
         machinery_error(prop, tier, "harness build failed against the instrumented tree (compile error in /repo, or a "
                         "sync/atomic feature the shims do not provide = instrumentation gap)", p.stdout + p.stderr)
-    return binp, ovdir, cleanup
+    return binp, ovdir, cleanup, modfile
 
 
 def main():
@@ -102,9 +155,10 @@ def main():
     ap.add_argument("--replay")
     ap.add_argument("--budget", type=int, default=0)
     ap.add_argument("--keep", action="store_true")
+    ap.add_argument("--race", type=int, default=0, help="also run the free-running -race pass with N executions per scenario")
     a = ap.parse_args()
     t0 = time.time()
-    binp, ovdir, cleanup = build(a.property, a.tier, REPO)
+    binp, ovdir, cleanup, modfile = build(a.property, a.tier, REPO)
     outdir = os.environ.get("VERIF_OUT", VERIF)
     if outdir != VERIF:
         # evaluation runs against patched trees keep their evidence / replays apart from the committed ones
@@ -122,6 +176,8 @@ def main():
     try:
         p = subprocess.run(cmd, env=ENV)
         rc = p.returncode
+        if not a.replay and a.property in RACE_PROPS and (a.tier == "thorough" or a.race):
+            race_pass(a.property, a.race or RACE_PROPS[a.property], modfile, ovdir, outdir)
     finally:
         if not a.keep:
             for c in cleanup + [binp]:
